@@ -128,6 +128,8 @@ pub const CATALOGUE: &[Entry] = &[
     e("blank_alias_nbsp", "@zz9«|\u{a0}»{}", E::COMPONENT_ALIAS, Err_, Parse, false),
     e("blank_value_nbsp", "@zz9{«\u{a0}%g»}", NONE, Err_, Parse, false),
     e("blank_metadata_key_nbsp", ">>«\u{a0}»: v", NONE, Err_, Parse, true),
+    e("empty_ingredient_name_with_alias", "«@|zz9{1%g}»", E::COMPONENT_ALIAS, Err_, Parse, false),
+    e("empty_cookware_name_with_alias", "«#|zz9{}»", E::COMPONENT_ALIAS, Err_, Parse, false),
     e("zero_denominator", "@zz9{«1/0»%g}", NONE, Err_, Parse, false),
     e("zero_denominator_mixed", "@zz9{«2 1/0»}", NONE, Err_, Parse, false),
     e("empty_value", "@zz9{«%g»}", NONE, Err_, Parse, false),
@@ -135,6 +137,8 @@ pub const CATALOGUE: &[Entry] = &[
     e("unit_on_cookware", "#zz9{1«%kg»}", NONE, Err_, Parse, false),
     e("unit_on_cookware_after_space", "#zz9{1« kg»}", E::ADVANCED_UNITS, Err_, Parse, false),
     e("timer_without_unit", "~{«5»}", NONE, Err_, Parse, false),
+    e("timer_with_empty_unit", "~{«5%»}", NONE, Err_, Parse, false),
+    e("timer_with_blank_unit", "~zz9{«5% »}", NONE, Err_, Parse, false),
     e("timer_without_unit_named", "~zz9{«5»}", NONE, Err_, Parse, false),
     e("timer_without_duration_word", "«~zz9»", E::TIMER_REQUIRES_TIME, Err_, Parse, false),
     e("timer_without_duration_braces", "~zz9«{}»", E::TIMER_REQUIRES_TIME, Err_, Parse, false),
@@ -178,6 +182,8 @@ pub const CATALOGUE: &[Entry] = &[
     e("intermediate_with_recipe_modifier", "filler\n\n@«@&(~1)»zz9{}", E::INTERMEDIATE_PREPARATIONS, Err_, Analysis, true),
     e("intermediate_with_conflicting_modifier", "filler\n\n@«&(~1)-»zz9{}", E::INTERMEDIATE_PREPARATIONS, Err_, Analysis, true),
     e("bad_mode_value", ">> [mode]: «bogus»", E::MODES, Err_, Analysis, true),
+    e("bad_mode_value_spaced_key", ">> [mode] : «bogus»", E::MODES, Err_, Analysis, true),
+    e("bad_define_value", ">> [define]: «bogus»", E::MODES, Err_, Analysis, true),
     e("bad_duplicate_value", ">> [duplicate]: «bogus»", E::MODES, Err_, Analysis, true),
     e("timer_unit_not_time", "~{5%«kg»}", E::ADVANCED_UNITS, Err_, Analysis, false),
     e("timer_unit_unknown", "~{5%«foo»}", E::ADVANCED_UNITS, Err_, Analysis, false),
@@ -296,9 +302,13 @@ pub fn check_injection(ctx: &mut Ctx, ps: &mut Parsers, entry: &Entry, text: &st
     let case = Case::new("injected", text, ext, "bundled").with(json!({"entry": entry.name, "range": [lo, hi], "placement": placement}));
     ctx.begin(&case);
     let parser = ps.parser(ext, "bundled").clone();
-    let Ok(r) = crate::core::guarded(|| parser.parse(text)) else {
-        ctx.count("panic_in_parse(C03)");
-        return;
+    let r = match crate::core::guarded(|| parser.parse(text)) {
+        Ok(r) => r,
+        Err(p) => {
+            // the construct has to produce a diagnostic; a panic produces none
+            ctx.violation(&case, "catalogue", &format!("{}|panic", entry.name), format!("parsing panics instead of reporting: {} at {}", p.message, p.location));
+            return;
+        }
     };
     if let Some((c, m)) = result_shape(&r) {
         ctx.violation(&case, "result_shape", c, m);
